@@ -152,6 +152,8 @@ def explore(S, want=('C06',), per_kind=10, max_nodes=14, deep=False):
     expr_kinds = {kt.names[k] for k in kt.cast_variant['Expr']}
     found = []
     coverage = {}
+    tasks = []
+    task_kind = []
     for kind in sorted(shapes):
         if kind not in expr_kinds:
             continue
@@ -223,17 +225,20 @@ def explore(S, want=('C06',), per_kind=10, max_nodes=14, deep=False):
                                                                        mode=model_int(mdl, c0.get('mode').disc), suppressed=model_bool(mdl, c0.get('break_suppressed')),
                                                                        chain_width=model_int(mdl, cw)))
             name = '%s.%s[%s]' % ('deep' if deep else 'conserve', kind, strip_layout(src_text)[:24])
-            ob, ex = S.explore(name, 'convert_expr on the %s node parsed from %r: non-layout characters conserved for every context / configuration' % (kind, src_text[:60]),
-                               body, bounds=dict(kind=kind, nodes=size_of(tree)))
-            if ob.status.startswith('inconclusive'):
-                # an encoder gap for this shape: not decided (recorded; the committed coverage list decides whether that is acceptable)
-                S.inconclusive.pop()
-                cov['gaps'].append(ob.status[:160])
-            else:
-                cov['decided'] += 1
-            for lab, mdl, info in ex.violations:
-                found.append((lab, info))
+            tasks.append((name, 'convert_expr on the %s node parsed from %r: non-layout characters conserved for every context / configuration' % (kind, src_text[:60]),
+                          body, dict(kind=kind, nodes=size_of(tree))))
+            task_kind.append(kind)
         coverage[kind] = cov
+    for (ob, viol), kind in zip(S.explore_batch(tasks), task_kind):
+        cov = coverage[kind]
+        if ob.status.startswith('inconclusive'):
+            # an encoder gap for this shape: not decided (recorded; the committed coverage list decides whether that is acceptable)
+            S.inconclusive[:] = [x for x in S.inconclusive if not x.startswith(ob.name + ':')]
+            cov['gaps'].append(ob.status[:160])
+        else:
+            cov['decided'] += 1
+        for lab, mdl, info in viol:
+            found.append((lab, info))
     S.validation['conservation_coverage' + ('_deep' if deep else '')] = {k: dict(shapes=v['shapes'], decided=v['decided'], gaps=sorted(set(v['gaps']))[:3]) for k, v in coverage.items()}
     S.validation['conservation_corpus_files'] = nfiles
     # the kinds listed in the committed coverage file must stay fully decided, otherwise the run is inconclusive
